@@ -22,7 +22,29 @@ def no_trace(ctx, shape, w, pre, post, r):
 
 
 def families(tier):
-    return [corpus.make_family(s, [no_trace]) for s in corpus.shapes(tier)]
+    fams = [corpus.make_family(s, [no_trace]) for s in corpus.shapes(tier)]
+    # all-or-nothing when the server-side retries are used up by a competing
+    # provider write ([placement] allocation_conflict_retry_count = 1): the
+    # write is either refused without trace or applied completely
+    # (equivalent to a serial execution), over one and over several consumers
+    from checks import c05, c07
+    fams += [
+        c07.make_family('conc/put_alloc+put_traits/retry=1',
+                        [c07.claim(1, 1), c05.put_traits(2)], retry_count=1),
+        c07.make_family('conc/post_alloc(2 consumers)+put_traits/retry=1',
+                        [c07.post_claim(1, [4, 5]), c05.put_traits(2)],
+                        retry_count=1),
+    ]
+    if tier == 'thorough':
+        fams += [
+            c07.make_family('conc/put_alloc+put_invs/retry=1',
+                            [c07.claim(1, 1), c05.put_invs(2)],
+                            retry_count=1),
+            c07.make_family('conc/put_alloc+put_traits/retry=2',
+                            [c07.claim(1, 1), c05.put_traits(2)],
+                            retry_count=2),
+        ]
+    return fams
 
 
 if __name__ == '__main__':
@@ -30,4 +52,5 @@ if __name__ == '__main__':
         'C04', families,
         functions=corpus.ALLOC_FUNCS + corpus.INV_FUNCS,
         assumptions=['pre-state: standard world of checks/corpus.py under '
-                     'its stated invariant', 'see C01 assumptions']))
+                     'its stated invariant', 'see C01 assumptions'],
+        quick_budget=420, thorough_budget=1700))
